@@ -22,8 +22,15 @@ using ES = tfm::stensor_common::EigenSolver;
 extern sigjmp_buf g_jb;
 extern volatile int g_armed;
 extern char g_why[512];
+extern const char* g_kind;  // "assert" (assert()/abort() of the library) or "crash" (SIGSEGV/SIGBUS, e.g. unbounded recursion)
 void install_abort_recovery();
-// runs f(); returns false when the library aborted (assert or std::abort) inside f.
+// names the witness of a sanitizer report without the case index in the first token (the index follows a blank), so
+// that the key built from it by vfcore is stable across seeds
+inline void set_case(const char* api, const char* stratum, uint64_t idx) {
+  std::snprintf(vf::g_case, sizeof vf::g_case, "%s:%s case=%llu", api, stratum, (unsigned long long)idx);
+}
+// runs f(); returns false when the library aborted (assert, std::abort) or crashed (SIGSEGV/SIGBUS: run the binary with
+// ASAN_OPTIONS=...:handle_segv=0 so that the harness sees the signal) inside f.
 // g_why then holds the assertion text.  Only trivially destructible objects may live in f.
 template <typename F>
 inline bool guarded(F&& f) {
@@ -142,13 +149,25 @@ namespace vfx {
 sigjmp_buf g_jb;
 volatile int g_armed = 0;
 char g_why[512] = "";
+const char* g_kind = "assert";
+static char g_altstack[1 << 16];
 static void on_abort(int) {
   if (g_armed) {
     if (!g_why[0]) std::snprintf(g_why, sizeof g_why, "std::abort() called by the library");
+    g_kind = "assert";
     siglongjmp(g_jb, 1);
   }
   std::signal(SIGABRT, SIG_DFL);
   std::raise(SIGABRT);
+}
+static void on_segv(int sig) {
+  if (g_armed) {
+    std::snprintf(g_why, sizeof g_why, "%s inside the library call (stack exhaustion by unbounded recursion or invalid access)", sig == SIGBUS ? "SIGBUS" : "SIGSEGV");
+    g_kind = "crash";
+    siglongjmp(g_jb, 1);
+  }
+  std::signal(sig, SIG_DFL);
+  std::raise(sig);
 }
 void install_abort_recovery() {
   struct sigaction sa;
@@ -156,6 +175,18 @@ void install_abort_recovery() {
   sa.sa_handler = on_abort;
   sa.sa_flags = SA_NODEFER;
   sigaction(SIGABRT, &sa, nullptr);
+  // SIGSEGV on an alternate stack (only effective when the sanitizer runtime does not own the signal)
+  const char* ao = std::getenv("ASAN_OPTIONS");
+  if (ao && std::strstr(ao, "handle_segv=0")) {
+    stack_t ss;
+    ss.ss_sp = g_altstack; ss.ss_size = sizeof g_altstack; ss.ss_flags = 0;
+    sigaltstack(&ss, nullptr);
+    std::memset(&sa, 0, sizeof sa);
+    sa.sa_handler = on_segv;
+    sa.sa_flags = SA_NODEFER | SA_ONSTACK;
+    sigaction(SIGSEGV, &sa, nullptr);
+    sigaction(SIGBUS, &sa, nullptr);
+  }
 }
 }  // namespace vfx
 // the executable's definition pre-empts libc's: a failed assert() of the library inside a
@@ -165,6 +196,7 @@ extern "C" void __assert_fail(const char* expr, const char* file, unsigned int l
   std::snprintf(vfx::g_why, sizeof vfx::g_why, "assertion failed: %s:%u: %.300s", base ? base + 1 : file, line, expr);
   for (char* p = vfx::g_why; *p; ++p) if (*p == '"' || *p == '\\' || static_cast<unsigned char>(*p) < 0x20) *p = '\'';
   (void)func;
+  vfx::g_kind = "assert";
   if (vfx::g_armed) siglongjmp(vfx::g_jb, 1);
   std::fprintf(stderr, "%s: %s:%u: %s: Assertion `%s' failed.\n", "harness", file, line, func, expr);
   std::signal(SIGABRT, SIG_DFL);
